@@ -469,9 +469,7 @@ def correspond(ctx, items, meta):
             ok = not (res > bound).any()
             if len(mats) > 2:
                 kind = {"ymean": "ymean", "zero": "scalar", "scalar": "scalar", "vector": "vector"}[cfg["noise"]]
-                # symmetrised like the recorded argument (jnp.linalg.cholesky factorises (A + A^T)/2; Gram matrices are
-            # symmetric only up to the cancellation error of |x|^2 + |y|^2 - 2xy)
-            Astat = 0.5 * (b["K_bb"] + b["K_bb"].T) + noise_matrix(kind, b["sigma"], cfg["jitter"], b["m"])
+                Astat = b["K_bb"] + noise_matrix(kind, b["sigma"], cfg["jitter"], b["m"])
                 ok = ok and np.linalg.norm(L_m @ L_m.T - Astat) <= 2 * (mm + 1) * mm * U * np.linalg.norm(Astat)
                 # prediction agreement: perturbation of the Cholesky factor (Higham Thm 10.8) through K_* L^-T
                 amin = np.diag(Astat - b["K_bb"]).min()
